@@ -27,7 +27,7 @@ def run(ctx):
     ctx.notes['deviations_detected_by']['UpdateVarInPlaceWhenPrivate'] = ac.vacuity(ctx, ac.PAIR_CALLS, 'UpdateVarInPlaceWhenPrivate', maxlen=4)
     ctx.notes['deviations_detected_by']['DerivedSharesEdgeDicts'] = ac.vacuity(ctx, ac.PAIR_CALLS, 'DerivedSharesEdgeDicts', maxlen=3)
     behs = [b for b in behs if any(c['a'] in ('update_var', 'update_edge', 'compile_nv') for c in b['calls'])]
-    ac.judge_all(ctx, behs, 'compiled model after overrides', cap=2600 if ctx.tier == "quick" else 15000, always=pair)
+    ac.judge_all(ctx, behs, 'compiled model after overrides', cap=2600 if ctx.tier == "quick" else 8000, always=pair)
     shared_subcircuit(ctx)
     for b in behs[len(behs) // 2: len(behs) // 2 + 2]:
         ctx.sample(dict(calls=b['calls'], expected_units=b['expM'], dev=b['dev']))
